@@ -322,8 +322,13 @@ macro('KEPT_OK', ['me', 'sc'],
 
 contract(AR_ + '._holder_of_key_confirmed', trusted=True, pure=True, params=['self', 'data'], returns='Bool',
          note='holder-of-key confirmation (KeyInfo presence among the extension elements); not part of the properties')
-contract('saml2_tophat.sigver:SecurityContext.decrypt', trusted=True, pure=True, params=['self', 'enctext', 'key_file', 'id_attr'],
-         defaults={'key_file': None, 'id_attr': ''}, assumptions=['E-XMLSEC'])
+contract('saml2_tophat.sigver:SecurityContext.decrypt', types={'enctext': 'Union(Str, Bytes)', 'key_file': 'Opt(Str)', 'id_attr': 'Opt(Str)'},
+         returns='Union(Str, Bytes)',
+         ensures=[# C17 / C20: what no configured key decrypts comes back unchanged; anything else is non-empty output of the tool
+                  ('C17-undecryptable-is-returned-unchanged', 'result == enctext or (is_str(result) and len(str_of(result)) > 0)')],
+         raises={'XmlsecError': 'True', 'OSError': 'True', 'UnicodeDecodeError': 'True', 'TypeError': 'True', 'AttributeError': 'True'},
+         modifies=[], loops={0: {'inv': [], 'modifies': []}},
+         clauses_from={'C17': ['C17-undecryptable-is-returned-unchanged'], 'C20': ['C17-undecryptable-is-returned-unchanged']})
 contract('saml2_tophat:SamlBase.to_string', trusted=True, pure=True, params=['self', 'nspair'], defaults={'nspair': None},
          returns='Bytes', assumptions=['E-ET'])
 contract('saml2_tophat.saml:name_id_from_string', trusted=True, params=['xml_string'],
